@@ -387,3 +387,10 @@ def run(prop: str, tier: str) -> int:
         return V.finish("model_checking", cov, ASSUME)
     finally:
         shutil.rmtree(tmp, ignore_errors=True)
+
+
+def replay_case(prop, case, tmp):
+    keep = ("kind", "ps", "reqs", "salt", "expect", "reverse")
+    row = _dispatch((1, {k: case[k] for k in keep if k in case}))
+    res = C.run_tlc_sharded("EprFields", [row], tmp, shards=1, cfg="EprFields.cfg")
+    return res.verdicts[0][1] if res.verdicts else None
